@@ -43,10 +43,13 @@ func init() {
 			{Name: "B", Run: runB},
 			{Name: "C", Run: runC},
 			{Name: "Cnew", Run: runCnew},
+			{Name: "Cnative", Run: runCnative},
 			{Name: "E", Run: runE},
 			{Name: "L", Run: runL},
 			{Name: "F", Run: runF},
 			{Name: "R", Run: runR},
+			{Name: "S", Run: runS},
+			{Name: "G", Run: runG},
 			{Name: "witness", Run: runWitness, Solo: true},
 		},
 		Assumptions: []string{
